@@ -194,6 +194,9 @@ func (e merr) goErr() error {
 var errCode = regexp.MustCompile(`e(\d+)$`)
 
 func classify(err error) merr {
+	if err == nil { // an error event that carries no error
+		return merr{kind: 2, code: 996}
+	}
 	if errors.Is(err, context.Canceled) {
 		return merr{kind: 0}
 	}
